@@ -110,7 +110,7 @@ def prob_momentum(mk, kind, dim, mkind="diag", ckind="linear"):
     return items
 
 
-def prob_correlated(mk, kind, dim, mkind="diag"):
+def prob_correlated(mk, kind, dim, mkind="diag", reassigned=False):
     sysm, info = _build(mk, kind, dim, mkind, "linear")
     q = mk.arr("q", dim)
     if "metric_model" in info:
@@ -118,7 +118,16 @@ def prob_correlated(mk, kind, dim, mkind="diag"):
     c = mk.real("coeff")
     mk.require(c >= 0)
     mk.require(c <= 1)
-    tr = T.CorrelatedMomentumTransition(sysm, mom_resample_coeff=c)
+    if reassigned:
+        # the coefficient is a public attribute: constructed with one value (or the default), used, then set to another
+        c0 = mk.real("coeff0")
+        mk.require(c0 >= 0)
+        mk.require(c0 <= 1)
+        tr = T.CorrelatedMomentumTransition(sysm, mom_resample_coeff=c0)
+        tr.sample(_state(q.copy(), mk.arr("p0", dim)), ScriptRng(mk.arr("z0", dim)))
+        tr.mom_resample_coeff = c
+    else:
+        tr = T.CorrelatedMomentumTransition(sysm, mom_resample_coeff=c)
     p, z = mk.arr("p", dim), mk.arr("z", dim)
     zero = np.zeros(dim, dtype=float) if not mk.symbolic else np.array([SV(0)] * dim, dtype=object)
 
@@ -134,7 +143,7 @@ def prob_correlated(mk, kind, dim, mkind="diag"):
         A[:, j] = run(_basis(mk, dim, j), zero)
         B[:, j] = run(zero, _basis(mk, dim, j))
     Md = info["metric_dense"](list(q))
-    tag = f"correlated/{kind}/{mkind}"
+    tag = f"correlated/{kind}/{mkind}" + ("/coefficient re-assigned" if reassigned else "")
     items = [Item(f"{tag}: new momentum is linear in (old momentum, draws)", new, A @ p + B @ z),
              Item(f"{tag}: A M A^T + B B^T == M (Gaussian law preserved)", A @ Md @ A.T + B @ B.T, Md)]
     # coefficient 1 / 0 reduce to full refreshment / no change
@@ -191,6 +200,8 @@ def cases(tier):
     for kind, mkind in (("euclid", "identity"), ("euclid", "diag"), ("euclid", "dense"), ("diagonal", "diag"), ("scalar", "diag")):
         for dim in (1, 2):
             G(f"correlated/{kind}/{dim}/{mkind}", "correlated", {"kind": kind, "dim": dim, "mkind": mkind})
+            if mkind == "diag" and kind in ("euclid", "diagonal"):
+                G(f"correlated_reassigned/{kind}/{dim}/{mkind}", "correlated", {"kind": kind, "dim": dim, "mkind": mkind, "reassigned": True})
     return out
 
 
